@@ -196,6 +196,34 @@ func (h *H) onStart(w *W, jr *JobRec, s int) {
 	if l := w.maxLimit(oldest, s); w.Inflight > l {
 		h.viol("C02", "C02.limit", fmt.Sprintf("%d worker functions in progress, limit %d", w.Inflight, l))
 	}
+	// C02.tune: once TunePool(n) has returned and the jobs dispatched before it have finished, at most n run
+	// together. OldUnfinished bounds the jobs dispatched before the return that were unfinished then; those
+	// among them that the harness knows (started before the return) are subtracted as they end.
+	for i := len(h.Ctls) - 1; i >= 0; i-- {
+		c := h.Ctls[i]
+		if c.W != w || c.Op != "TunePool" {
+			continue
+		}
+		if !c.Done || c.Err != nil || c.Ret > s {
+			break // a call in progress (or later): both limits count, judged by C02.limit only
+		}
+		old := c.OldUnfinished
+		for _, o := range h.Jobs {
+			for k, st := range o.Starts {
+				if o.StartW[k] == w && st < c.Ret && k < len(o.Ends) && o.Ends[k] > c.Ret && o.Ends[k] < s {
+					old--
+				}
+			}
+		}
+		n := c.Arg
+		if n < 1 {
+			n = w.curLimit()
+		}
+		if old <= 0 && w.Inflight > n && !h.NoMon {
+			h.viol("C02", "C02.tune", "more jobs run together than the new limit although TunePool had returned and every job dispatched before it had finished")
+		}
+		break
+	}
 	// C09: nothing starts after a stopping barrier returned and before the next Resume/Restart call
 	for i := len(h.Ctls) - 1; i >= 0; i-- {
 		c := h.Ctls[i]
